@@ -192,7 +192,12 @@ impl ast::Stanza {
         let node = mat
             .nodes_for_capture_index(self.full_match_file_capture_index as u32)
             .next()
-            .expect("missing capture for full match");
+            .ok_or_else(|| {
+                ExecutionError::UndefinedCapture(format!(
+                    "full match of stanza at {}",
+                    self.range.start
+                ))
+            })?;
         debug!("match {:?} at {}", node, self.range.start);
         trace!("{{");
         for statement in &self.statements {
@@ -274,7 +279,7 @@ impl ast::CreateGraphNode {
                 .mat
                 .nodes_for_capture_index(exec.full_match_file_capture_index as u32)
                 .next()
-                .expect("missing capture for full match");
+                .ok_or_else(|| ExecutionError::UndefinedCapture(format!("full match in {}", self)))?;
             let syn_node = exec.graph.add_syntax_node(match_node);
             exec.graph[graph_node]
                 .attributes
